@@ -3,10 +3,21 @@
    to OCaml's own types; positive / N / Z / nat stay Coq's inductive types.
    No Extract Constant, no further Extract Inductive. *)
 From Coq Require Import ExtrOcamlBasic.
-From LoraV Require Import Base.Prelude Model.Toa Spec.Airtime Model.Ldro Spec.LdroSpec.
+From LoraV Require Import Base.Prelude Model.Toa Spec.Airtime Model.Ldro Spec.LdroSpec
+  Base.Bytes Crypto.AES Crypto.CMAC Model.Frame Spec.L2Frame Model.Exec.
 Extraction Language OCaml.
 Extraction "model.ml"
   Toa.toa_us Toa.toa_safe Toa.ldro Toa.t_sym_us Toa.bw_hz
   Toa.delay_in_symbols Toa.delay_in_symbols_safe Toa.symbols_to_ms Toa.symbols_to_ms_safe
   Airtime.airtime_us
-  Ldro.ldro_outcome LdroSpec.ldro_required.
+  Ldro.ldro_outcome LdroSpec.ldro_required
+  AES.aes_encrypt AES.aes_decrypt CMAC.aes_cmac
+  Exec.x_build_data Exec.x_build_join_request Exec.x_build_join_accept Exec.x_validate Exec.x_validate_mic
+  Exec.x_decrypt_in_place Exec.x_check_mic_and_decrypt Exec.x_parse_phy Exec.x_parse_join_request
+  Exec.x_jr_validate_mic Exec.x_ja_decrypt_in_place Exec.x_ja_check_mic_and_decrypt Exec.x_ja_validate_mic
+  Exec.x_derive_session_key Exec.x_spec_data Exec.x_spec_join_request Exec.x_spec_join_accept
+  Exec.x_spec_session_key Exec.x_spec_mic Exec.x_wf_wire
+  Frame.v_dev_addr Frame.v_fctrl Frame.v_fcnt Frame.v_f_opts Frame.v_f_port Frame.v_frm Frame.mic_of
+  Frame.fc_adr Frame.fc_adr_ack_req Frame.fc_ack Frame.fc_f_pending Frame.fc_f_opts_len
+  Frame.ja_join_nonce Frame.ja_net_id Frame.ja_dev_addr Frame.ja_dl_settings Frame.ja_rx_delay Frame.ja_c_f_list
+  Bytes.le_value Bytes.le_bytes.
